@@ -82,10 +82,10 @@ where
         exact pairs_pm_fin fs xs (fun c hc => hf c (List.mem_cons_of_mem _ hc)) c h
 
 /-- **closed form of `to_standard_form`** on a well-formed model. -/
-theorem standardize_spec (tol : Ext K) (lm : LinModel (Ext K)) (hW : WF lm) :
+theorem standardize_spec (lm : LinModel (Ext K)) (hW : WF lm) :
     ∃ (sm : StdModel (Ext K)) (srows : List (StdRow (Ext K))) (names : List String) (total : Nat),
-      standardize tol lm = .ok sm ∧
-      normalizeAll tol (lm.vars.length + countT (flags lm)) 0 0 (splitRows lm) = .ok (srows, names, total) ∧
+      standardize lm = .ok sm ∧
+      normalizeAll (lm.vars.length + countT (flags lm)) 0 0 (splitRows lm) = .ok (srows, names, total) ∧
       sm.vars.length = total ∧
       sm.rows = srows.map (fun r => { r with coeffs := resize (resize r.coeffs total Arith.zero) total Arith.zero }) ∧
       sm.objective = resize (if lm.optType = .max then (splitObj lm).map (fun c => Arith.mul c (Arith.ofInt (-1))) else splitObj lm) total Arith.zero ∧
@@ -114,7 +114,7 @@ theorem standardize_spec (tol : Ext K) (lm : LinModel (Ext K)) (hW : WF lm) :
     have := split_closed (flags lm) lm.objective hl
     rw [hobj] at this
     simpa [splitObj] using this
-  obtain ⟨⟨srows, names, total⟩, hnorm⟩ := normalizeAll_ok tol (splitRows lm) (lm.vars.length + (flagsIdx 0 (flags lm)).length) 0 0
+  obtain ⟨⟨srows, names, total⟩, hnorm⟩ := normalizeAll_ok (splitRows lm) (lm.vars.length + (flagsIdx 0 (flags lm)).length) 0 0
     (fun r hr => (splitRows_ok lm hW r hr).cmp)
   have hsplitok := splitRows_ok lm hW
   have hcnt := count_sum (flags lm)
@@ -122,7 +122,7 @@ theorem standardize_spec (tol : Ext K) (lm : LinModel (Ext K)) (hW : WF lm) :
   -- the number of columns
   have hu : lm.vars.length + countT (flags lm) = (List.replicate (countF (flags lm) + 2 * countT (flags lm)) (0:K)).length + ([] : List K).length := by
     simp; omega
-  have hsem := normalizeAll_sem tol (List.replicate (countF (flags lm) + 2 * countT (flags lm)) (0:K)) (splitRows lm) []
+  have hsem := normalizeAll_sem (List.replicate (countF (flags lm) + 2 * countT (flags lm)) (0:K)) (splitRows lm) []
     (List.replicate (nonEq (splitRows lm)) 0) 0 0 srows names total
     (by simpa using hsplitok) (by rw [← hu, ← flagsIdx_length (flags lm) 0]; exact hnorm) (by simp)
   obtain ⟨htot, hnames, -, -⟩ := hsem
@@ -135,7 +135,7 @@ theorem standardize_spec (tol : Ext K) (lm : LinModel (Ext K)) (hW : WF lm) :
     simp at htot ⊢; omega
   -- the result, explicitly
   let V := removeMany (lm.vars ++ (flagsIdx 0 (flags lm)).flatMap (fun i => let v := lm.vars.getD i ""; ["$p" ++ v, "$m" ++ v])) (flagsIdx 0 (flags lm)) ++ names
-  have hstd : standardize tol lm = .ok (standardize.mk V
+  have hstd : standardize lm = .ok (standardize.mk V
       (if lm.optType = .max then (splitObj lm).map (fun c => Arith.mul c (Arith.ofInt (-1))) else splitObj lm)
       lm.offset (decide (lm.optType = .max))
       (srows.map (fun r => { r with coeffs := resize r.coeffs total Arith.zero }))) := by
@@ -264,16 +264,16 @@ theorem splitRows_holds (lm : LinModel (Ext K)) (hW : WF lm) (ku pmu : List K)
     rwa [splitVec_val (flags lm) r.coeffs ku pmu (by rw [h0.len, flags_length]) h0.fin hk hp]
 
 /-- the rows of the standard form at `u ++ s` are the split rows in slack form. -/
-theorem std_rows_iff (tol : Ext K) (lm : LinModel (Ext K)) (hW : WF lm) {sm : StdModel (Ext K)}
-    (hs : standardize tol lm = .ok sm) (u s : List K) (hu : u.length = countF (flags lm) + 2 * countT (flags lm))
+theorem std_rows_iff (lm : LinModel (Ext K)) (hW : WF lm) {sm : StdModel (Ext K)}
+    (hs : standardize lm = .ok sm) (u s : List K) (hu : u.length = countF (flags lm) + 2 * countT (flags lm))
     (hsl : s.length = nonEq (splitRows lm)) :
     sm.vars.length = u.length + s.length ∧
     ((∀ r ∈ sm.rows, rowVal r.coeffs (u ++ s) = toK r.rhs) ↔ SlackSem (splitRows lm) u s) := by
-  obtain ⟨sm', srows, names, total, hstd, hnorm, hv, hr, -, -, -⟩ := standardize_spec tol lm hW
+  obtain ⟨sm', srows, names, total, hstd, hnorm, hv, hr, -, -, -⟩ := standardize_spec lm hW
   rw [hs] at hstd; cases hstd
   have hcnt := count_sum (flags lm)
   rw [flags_length] at hcnt
-  have hsem := normalizeAll_sem tol u (splitRows lm) [] s 0 0 srows names total
+  have hsem := normalizeAll_sem u (splitRows lm) [] s 0 0 srows names total
     (by rw [hu]; exact splitRows_ok lm hW) (by simpa [hu, ← hcnt, Nat.add_assoc, two_mul] using hnorm) hsl
   obtain ⟨htot, -, hlen, hiff⟩ := hsem
   refine ⟨by rw [hv, htot, hsl]; simp, ?_⟩
@@ -286,16 +286,16 @@ theorem std_rows_iff (tol : Ext K) (lm : LinModel (Ext K)) (hW : WF lm) {sm : St
     exact h r hr'
 
 /-- the recorded objective at `ku ++ pmu ++ s` is the original objective at `back fl ku pmu`. -/
-theorem std_obj_eq (tol : Ext K) (lm : LinModel (Ext K)) (hW : WF lm) {sm : StdModel (Ext K)}
-    (hs : standardize tol lm = .ok sm) (ku pmu s : List K) (hk : ku.length = countF (flags lm))
+theorem std_obj_eq (lm : LinModel (Ext K)) (hW : WF lm) {sm : StdModel (Ext K)}
+    (hs : standardize lm = .ok sm) (ku pmu s : List K) (hk : ku.length = countF (flags lm))
     (hp : pmu.length = 2 * countT (flags lm)) (hsl : s.length = nonEq (splitRows lm)) :
     stdObj sm (ku ++ pmu ++ s) = obj lm (back (flags lm) ku pmu) := by
-  obtain ⟨sm', srows, names, total, hstd, hnorm, hv, -, ho, hoff, hfl⟩ := standardize_spec tol lm hW
+  obtain ⟨sm', srows, names, total, hstd, hnorm, hv, -, ho, hoff, hfl⟩ := standardize_spec lm hW
   rw [hs] at hstd; cases hstd
   have hol : lm.objective.length = (flags lm).length := by rw [hW.objLen, flags_length]
   have hsl' : (splitObj lm).length = (ku ++ pmu).length := by
     simp only [splitObj, List.length_append, keep_length _ _ hol, pairs_length pm (fun _ => rfl) _ _ hol, hk, hp]
-  have htotal := (std_rows_iff tol lm hW hs (ku ++ pmu) s (by simp [hk, hp]) hsl).1
+  have htotal := (std_rows_iff lm hW hs (ku ++ pmu) s (by simp [hk, hp]) hsl).1
   rw [hv] at htotal
   have hfin : ∀ c ∈ splitObj lm, isFin c := by
     intro c hc
@@ -322,8 +322,8 @@ noncomputable def image (lm : LinModel (Ext K)) (x : List K) : List K :=
 noncomputable def preimage (lm : LinModel (Ext K)) (y : List K) : List K :=
   back (flags lm) (y.take (countF (flags lm))) ((y.drop (countF (flags lm))).take (2 * countT (flags lm)))
 
-theorem fwd (tol : Ext K) (lm : LinModel (Ext K)) (hW : WF lm) {sm : StdModel (Ext K)}
-    (hs : standardize tol lm = .ok sm) (x : List K) (hF : LinFeasible lm x) :
+theorem fwd (lm : LinModel (Ext K)) (hW : WF lm) {sm : StdModel (Ext K)}
+    (hs : standardize lm = .ok sm) (x : List K) (hF : LinFeasible lm x) :
     StdFeasible sm (image lm x) ∧ stdObj sm (image lm x) = obj lm x := by
   have hxl : x.length = (flags lm).length := by rw [hF.len, flags_length]
   have hk : (keep (flags lm) x).length = countF (flags lm) := keep_length _ _ hxl
@@ -332,7 +332,7 @@ theorem fwd (tol : Ext K) (lm : LinModel (Ext K)) (hW : WF lm) {sm : StdModel (E
   obtain ⟨hrows, hsign⟩ := (linFeasible_iff lm hW x hF.len).1 hF
   have hsplit := (splitRows_holds lm hW _ _ hk hp).2 (by rw [hback]; exact hrows)
   obtain ⟨sl, snn, ssem⟩ := slack_fwd (splitRows lm) _ (fun r hr => (splitRows_ok lm hW r hr).cmp) hsplit
-  obtain ⟨hlen, hiff⟩ := std_rows_iff tol lm hW hs (keep (flags lm) x ++ pairs pmX (flags lm) x) _
+  obtain ⟨hlen, hiff⟩ := std_rows_iff lm hW hs (keep (flags lm) x ++ pairs pmX (flags lm) x) _
     (by rw [List.length_append, hk, hp]) sl
   refine ⟨⟨by simp only [image]; rw [hlen]; simp [Nat.add_assoc], ?_, ?_⟩, ?_⟩
   · intro v hv
@@ -342,19 +342,19 @@ theorem fwd (tol : Ext K) (lm : LinModel (Ext K)) (hW : WF lm) {sm : StdModel (E
     · exact pairs_pmX_nonneg _ _ v hv
     · exact snn v hv
   · exact hiff.2 ssem
-  · have := std_obj_eq tol lm hW hs _ _ _ hk hp sl
+  · have := std_obj_eq lm hW hs _ _ _ hk hp sl
     rw [hback] at this
     simpa [image] using this
 
-theorem bwd (tol : Ext K) (lm : LinModel (Ext K)) (hW : WF lm) {sm : StdModel (Ext K)}
-    (hs : standardize tol lm = .ok sm) (y : List K) (hF : StdFeasible sm y) :
+theorem bwd (lm : LinModel (Ext K)) (hW : WF lm) {sm : StdModel (Ext K)}
+    (hs : standardize lm = .ok sm) (y : List K) (hF : StdFeasible sm y) :
     LinFeasible lm (preimage lm y) ∧ stdObj sm y = obj lm (preimage lm y) := by
-  obtain ⟨sm', srows, names, total, hstd, hnorm, hv, -, -, -, -⟩ := standardize_spec tol lm hW
+  obtain ⟨sm', srows, names, total, hstd, hnorm, hv, -, -, -, -⟩ := standardize_spec lm hW
   rw [hs] at hstd; cases hstd
   have hcnt := count_sum (flags lm)
   rw [flags_length] at hcnt
   -- the number of columns, from the normalisation
-  have hsem := normalizeAll_sem tol (List.replicate (countF (flags lm) + 2 * countT (flags lm)) (0:K)) (splitRows lm) []
+  have hsem := normalizeAll_sem (List.replicate (countF (flags lm) + 2 * countT (flags lm)) (0:K)) (splitRows lm) []
     (List.replicate (nonEq (splitRows lm)) 0) 0 0 srows names total
     (by simpa using splitRows_ok lm hW) (by simpa [← hcnt, Nat.add_assoc, two_mul] using hnorm) (by simp)
   have htot : total = countF (flags lm) + 2 * countT (flags lm) + nonEq (splitRows lm) := by simpa using hsem.1
@@ -368,7 +368,7 @@ theorem bwd (tol : Ext K) (lm : LinModel (Ext K)) (hW : WF lm) {sm : StdModel (E
   have hp : pmu.length = 2 * countT (flags lm) := by simp [hpmu]; omega
   have hsl : s.length = nonEq (splitRows lm) := by simp [hsdef]; omega
   have hnn : ∀ v ∈ ku ++ pmu ++ s, 0 ≤ v := by rw [← hy]; exact hF.nonneg
-  obtain ⟨-, hiff⟩ := std_rows_iff tol lm hW hs (ku ++ pmu) s (by simp [hk, hp]) hsl
+  obtain ⟨-, hiff⟩ := std_rows_iff lm hW hs (ku ++ pmu) s (by simp [hk, hp]) hsl
   have ssem := hiff.1 (by rw [← hy]; exact hF.rows)
   have hsplit := slack_bwd (splitRows lm) _ s (fun r hr => (splitRows_ok lm hW r hr).cmp) hsl
     (fun v hv => hnn v (List.mem_append_right _ hv)) ssem
@@ -378,15 +378,15 @@ theorem bwd (tol : Ext K) (lm : LinModel (Ext K)) (hW : WF lm) {sm : StdModel (E
   · intro j hj hf
     exact back_kept_nonneg _ _ _ hk (fun v hv => hnn v (List.mem_append_left _ (List.mem_append_left _ hv))) j
       (by rw [flags_length]; exact hj) hf
-  · have := std_obj_eq tol lm hW hs ku pmu s hk hp hsl
+  · have := std_obj_eq lm hW hs ku pmu s hk hp hsl
     rw [← hy] at this
     exact this
 
 /-- every row of the standard form has as many coefficients as there are variables, and so has the objective. -/
-theorem shape (tol : Ext K) (lm : LinModel (Ext K)) (hW : WF lm) {sm : StdModel (Ext K)}
-    (hs : standardize tol lm = .ok sm) :
+theorem shape (lm : LinModel (Ext K)) (hW : WF lm) {sm : StdModel (Ext K)}
+    (hs : standardize lm = .ok sm) :
     (∀ r ∈ sm.rows, r.coeffs.length = sm.vars.length) ∧ sm.objective.length = sm.vars.length := by
-  obtain ⟨sm', srows, names, total, hstd, -, hv, hr, ho, -, -⟩ := standardize_spec tol lm hW
+  obtain ⟨sm', srows, names, total, hstd, -, hv, hr, ho, -, -⟩ := standardize_spec lm hW
   rw [hs] at hstd; cases hstd
   refine ⟨?_, ?_⟩
   · rw [hr, hv]
